@@ -340,7 +340,19 @@ func runC04(ctx *core.Ctx, pool *par.Pool) {
 		ctx.Set("depth_overflow_"+run.name(), st.Depth)
 		xstate.RunProbes(ctx, pool, run.Cfg, all, "sweep", nil, []string{"diskfmt"}, func(n *xstate.Node, r *xstate.ProbeResult) { sweeps++ })
 	}
+	// harvested seeds: every operation of the alphabet (thorough: every pair) from each of the far-away start
+	// states of harvest.json, with the on-disk decoder, the memory-vs-disk comparison and an allocation sweep
 	ctx.Unshare()
+	hd := 1
+	if !ctx.Quick() {
+		hd = 2
+	}
+	hst, hprobes, hseeds := harvestPass(ctx, pool, []string{"A", "B", "C", "D"}, func(pagedrv.Cfg) []O { return allocAlphabet(true, false) }, []string{"diskfmt", "memdisk"}, hd, "sweep", nil)
+	total.States += hst.States
+	total.Transitions += hst.Transitions
+	sweeps += hprobes
+	ctx.Set("harvested_seed_states", hseeds)
+	ctx.Set("harvest_depth", hd)
 	ctx.Set("allocation_sweeps", sweeps)
 	finishBFS(ctx, total, sweeps)
 }
@@ -359,6 +371,7 @@ func overflowBodyAlphabet() []O {
 		{K: pagedrv.OFlushTx},
 		{K: pagedrv.OCommit},
 		{K: pagedrv.ORollback},
+		{K: pagedrv.OReopen},
 	}
 }
 
